@@ -59,7 +59,7 @@ fn wn_tokens(case: &RCase, for_hook: bool) -> Vec<Tok> {
         .filter_map(|(n, (oc, _))| match oc {
             WnOc::Ok => None,
             WnOc::Err => Some(Tok::Str(if for_hook { format!("failed to initialize World: wn-err#{n}") } else { format!("failed to initialize `World`: wn-err#{n}") })),
-            WnOc::Panic => wn_token(*oc, n),
+            WnOc::Panic | WnOc::PanicEager => wn_token(*oc, n),
         })
         .collect()
 }
@@ -125,7 +125,7 @@ pub fn model_run(case: &RCase, log: &RunLog) -> Modelled {
                     // reported with one of two prefixes depending on the call site
                     *injected.entry(Tok::Str(format!("wn-err#{}", c.inv))).or_default() += 1;
                 }
-                WnOc::Panic => *injected.entry(Tok::Str(format!("wn-panic#{}", c.inv))).or_default() += 1,
+                WnOc::Panic | WnOc::PanicEager => *injected.entry(Tok::Str(format!("wn-panic#{}", c.inv))).or_default() += 1,
             }
         } else if let Some(t) = token_for(c.oc, &c.key, c.inv) {
             *injected.entry(t).or_default() += 1;
